@@ -128,7 +128,10 @@ def execute(case, choose, cancel_at=None):
     raised = {}
 
     @deco
-    async def body(call_id, how):
+    async def body(call_id, how, func=None, self=None, args=None, kwds=None, cm=None):
+        # (parameters named like the decorator's own: they belong to the decorated function)
+        if (func, self, args, kwds, cm) != ("F", "S", "A", "K", "C"):
+            raise AssertionError(f"the decorated function received {(func, self, args, kwds, cm)!r}")
         ev.append((CTX.current, "body", call_id))
         if susp["body"]:
             await Suspend(("body", call_id), susp["body"])
@@ -148,7 +151,7 @@ def execute(case, choose, cancel_at=None):
             cid = counter["call"]
             ev.append((CTX.current, "call", cid, how))
             try:
-                r = await body(cid, how)
+                r = await body(cid, how, func="F", self="S", args="A", kwds="K", cm="C")
             except BaseException as exc:  # noqa: BLE001
                 planned = raised.get(cid)
                 if not isinstance(exc, BodyError) and exc is not planned and exc is not translated.get(id(planned), (0, 0))[1]:
